@@ -270,6 +270,8 @@ func (h *Hook) OnRetainMessage(cl *mqtt.Client, pk packets.Packet, r int64) {
 		TopicName:   pk.TopicName,
 		Payload:     pk.Payload,
 		Created:     pk.Created,
+		Expiry:      pk.Expiry,
+		Version:     pk.ProtocolVersion,
 		Client:      cl.ID,
 		Origin:      pk.Origin,
 		Properties: storage.MessageProperties{
@@ -307,6 +309,8 @@ func (h *Hook) OnQosPublish(cl *mqtt.Client, pk packets.Packet, sent int64, rese
 		Payload:     pk.Payload,
 		Sent:        sent,
 		Created:     pk.Created,
+		Expiry:      pk.Expiry,
+		Version:     pk.ProtocolVersion,
 		Properties: storage.MessageProperties{
 			PayloadFormat:          props.PayloadFormat,
 			PayloadFormatFlag:      props.PayloadFormatFlag,
